@@ -134,12 +134,18 @@ impl Server for LocalServer {
         // invent a new ID for this version
         let version_id = Uuid::new_v4();
 
+        #[cfg(gothenburgbitfactory_taskchampion_verif)]
+        crate::server::verif_failpoint::hit("fp.local.before_insert")?;
         self.add_version_by_parent_version_id(Version {
             version_id,
             parent_version_id,
             history_segment,
         })?;
+        #[cfg(gothenburgbitfactory_taskchampion_verif)]
+        crate::server::verif_failpoint::hit("fp.local.between_insert_and_latest")?;
         self.set_latest_version_id(version_id)?;
+        #[cfg(gothenburgbitfactory_taskchampion_verif)]
+        crate::server::verif_failpoint::hit("fp.local.after_latest")?;
 
         Ok((AddVersionResult::Ok(version_id), SnapshotUrgency::None))
     }
